@@ -3,4 +3,6 @@ package main
 import (
 	_ "verif/props/c30"
 	_ "verif/props/c31"
+	_ "verif/props/c32"
+	_ "verif/props/c33"
 )
